@@ -714,12 +714,11 @@ func Parallel(n, workers int, f func(i int)) {
 
 // RaceReport is one "WARNING: DATA RACE" block.
 type RaceReport struct {
-	Text  string
-	Funcs []string // function names of all frames, in order, line numbers stripped
-	Key   string   // dedupe key: the two innermost hive.go functions of both stacks
+	Text   string
+	Funcs  []string   // function names of all frames of the two access stacks, in order
+	Stacks [][]string // the two access stacks (current access, previous access), innermost first
+	Key    string     // dedupe key: the innermost hive.go function of each access stack, sorted
 }
-
-var frameRe = regexp.MustCompile(`^  ([^\s(][^\n]*?)\(.*\)$`)
 
 // ParseRaceLogs reads every file `<prefix>.*` written by GORACE log_path.
 func ParseRaceLogs(prefix string) []RaceReport {
@@ -744,25 +743,35 @@ func ParseRaceText(s string) []RaceReport {
 			p = p[:i]
 		}
 		r := RaceReport{Text: "WARNING: DATA RACE" + p}
-		// the first two stacks (access, previous access) end at "Goroutine ... created at"
+		// the two access stacks come first; "Goroutine N (running) created at:" sections follow
 		head := p
 		if i := strings.Index(p, "\nGoroutine "); i >= 0 {
 			head = p[:i]
 		}
 		var keyFns []string
 		for _, blk := range strings.Split(head, "\n\n") {
-			first := ""
+			var st []string
 			for _, l := range strings.Split(blk, "\n") {
-				if m := frameRe.FindStringSubmatch(l); m != nil {
-					fn := m[1]
-					r.Funcs = append(r.Funcs, fn)
-					if first == "" && strings.Contains(fn, "iotaledger/hive.go") {
-						first = fn
-					}
+				// frames are indented by two spaces and end in "()", file lines by six
+				if !strings.HasPrefix(l, "  ") || strings.HasPrefix(l, "   ") || !strings.HasSuffix(l, ")") {
+					continue
 				}
+				fn := strings.TrimSpace(l)
+				if i := strings.LastIndexByte(fn, '('); i > 0 {
+					fn = fn[:i]
+				}
+				st = append(st, fn)
 			}
-			if first != "" {
-				keyFns = append(keyFns, first)
+			if len(st) == 0 {
+				continue
+			}
+			r.Stacks = append(r.Stacks, st)
+			r.Funcs = append(r.Funcs, st...)
+			for _, fn := range st {
+				if strings.Contains(fn, "iotaledger/hive.go") {
+					keyFns = append(keyFns, strings.TrimPrefix(fn, "github.com/iotaledger/hive.go/"))
+					break
+				}
 			}
 		}
 		sort.Strings(keyFns)
@@ -772,7 +781,7 @@ func ParseRaceText(s string) []RaceReport {
 	return out
 }
 
-// Touches reports whether any frame of the two access stacks is in one of the
+// Touches reports whether any frame of the access stacks is in one of the
 // given package path fragments.
 func (r RaceReport) Touches(pkgs ...string) bool {
 	for _, f := range r.Funcs {
@@ -785,8 +794,31 @@ func (r RaceReport) Touches(pkgs ...string) bool {
 	return false
 }
 
-// ReportRaces classifies race reports of a child: those that touch one of
-// pkgs are violations with fingerprint "race:<key>", the others become notes.
+// BothTouch reports whether each of the two access stacks has a frame in one
+// of the given package path fragments (DESIGN §1.6: a report refutes a clause
+// only when both accesses happen inside operations the statement constrains).
+func (r RaceReport) BothTouch(pkgs ...string) bool {
+	if len(r.Stacks) < 2 {
+		return false
+	}
+	for _, st := range r.Stacks[:2] {
+		ok := false
+		for _, f := range st {
+			for _, p := range pkgs {
+				if strings.Contains(f, p) {
+					ok = true
+				}
+			}
+		}
+		if !ok {
+			return false
+		}
+	}
+	return true
+}
+
+// ReportRaces classifies race reports of a child: those whose two access
+// stacks both touch one of pkgs are violations with fingerprint "race:<key>", the others become notes.
 func (c *Ctx) ReportRaces(rs []RaceReport, pkgs ...string) {
 	seen := map[string]bool{}
 	for _, r := range rs {
@@ -795,7 +827,7 @@ func (c *Ctx) ReportRaces(rs []RaceReport, pkgs ...string) {
 			continue
 		}
 		seen[r.Key] = true
-		if r.Touches(pkgs...) {
+		if r.BothTouch(pkgs...) {
 			txt := r.Text
 			if len(txt) > 6000 {
 				txt = txt[:6000]
